@@ -1,0 +1,65 @@
+//go:build verif
+
+// Contracts for govc (comment-only file; see /verif/DESIGN.md section 3).
+package zksch
+
+// Shape given by the Empty* templates and kept by the CBOR decoder (A-CBOR).
+//@ pred shapedResp(z *Response) := z.group != nil && z.Z != nil
+//@ pred shapedComm(c *Commitment) := c.C != nil
+//@ pred shapedProof(p *Proof) := p.Z.group != nil && p.Z.Z != nil && p.C.C != nil
+
+//@ func EmptyProof
+//@   nopanic[C05]
+//@   requires group != nil
+//@   modifies nothing
+//@   allocates
+//@   ensures result != nil && shapedProof(result)
+
+//@ func EmptyResponse
+//@   nopanic[C05]
+//@   requires group != nil
+//@   modifies nothing
+//@   allocates
+//@   ensures result != nil && shapedResp(result)
+
+//@ func EmptyCommitment
+//@   nopanic[C05]
+//@   requires group != nil
+//@   modifies nothing
+//@   allocates
+//@   ensures result != nil && shapedComm(result)
+
+//@ func (*Commitment).IsValid
+//@   nopanic[C05]
+//@   requires c != nil ==> shapedComm(c)
+//@   modifies nothing
+//@   ensures result ==> c != nil
+
+//@ func (*Response).IsValid
+//@   nopanic[C05]
+//@   requires z != nil ==> shapedResp(z)
+//@   modifies nothing
+//@   ensures result ==> z != nil
+
+//@ func (*Proof).IsValid
+//@   nopanic[C05]
+//@   requires p != nil ==> shapedProof(p)
+//@   modifies nothing
+//@   ensures result ==> p != nil
+
+//@ func (*Commitment).WriteTo
+//@   nopanic[C05]
+//@   requires c != nil && shapedComm(c) && w != nil
+
+//@ func challenge
+//@   nopanic[C05]
+//@   inline
+//@   requires hash != nil && hash.h != nil && group != nil && commitment != nil && shapedComm(commitment) && public != nil && gen != nil
+
+//@ func (*Response).Verify
+//@   nopanic[C05]
+//@   requires hash != nil && hash.h != nil && public != nil && commitment != nil && shapedComm(commitment) && (z != nil ==> shapedResp(z))
+
+//@ func (*Proof).Verify
+//@   nopanic[C05]
+//@   requires hash != nil && hash.h != nil && public != nil && (p != nil ==> shapedProof(p))
